@@ -13,6 +13,9 @@
 (*                 (overlapping, empty, unsorted, duplicated ... spans)    *)
 (*  Family "set":  all sets of disjoint non-empty spans over files of      *)
 (*                 <= N units, in three input orders                       *)
+(*  Family "move": all calls move_data(src file of n units @ so -> dst    *)
+(*                 file of m units @ dof, len) with n, m <= N, the source  *)
+(*                 range inside the source, dof <= m                       *)
 (*  Family "plan": all populations of <= MaxSeg segments with write        *)
 (*                 positions 0..MaxUsed, states in States ("F" frozen,     *)
 (*                 "T" thawed), x thresholds 1/4, 1/2, 1, 2                *)
@@ -61,9 +64,19 @@ EmitBuf == CHOOSE b \in Bufs : \A x \in Bufs : x <= b
 Thrs == {<<1, 4>>, <<1, 2>>, <<1, 1>>, <<2, 1>>}
 Populations == UNION {[1..k -> States \X (0..MaxUsed)] : k \in 0..MaxSeg}
 
+\* ---- inputs of the move family: N = max length of either file ---------------
+MoveInputs ==
+  {[n |-> n, m |-> m, so |-> so, dof |-> dof, len |-> len] :
+     n \in 0..N, m \in 0..N, so \in 0..N, dof \in 0..N, len \in 0..N}
+DstIds(n, m) == [i \in 1..m |-> n + i - 1]
+
 MCInit ==
   /\ fresh = TRUE
-  /\ \/ /\ Family = "seq"
+  /\ \/ /\ Family = "move"
+        /\ \E x \in {y \in MoveInputs : y.so + y.len <= y.n /\ y.dof <= y.m} : \E b \in Bufs :
+             inp = [n |-> x.n, m |-> x.m, so |-> x.so, dof |-> x.dof, len |-> x.len, buf |-> b]
+             /\ c = MInit(Ids(x.n), DstIds(x.n, x.m), x.so, x.dof, x.len)
+     \/ /\ Family = "seq"
         /\ \E n \in 0..N : \E sp \in SeqInputs(n) : \E b \in Bufs :
              inp = [n |-> n, sp |-> sp, buf |-> b] /\ c = CInit(Ids(n), sp, Tie)
      \/ /\ Family = "set"
@@ -75,18 +88,25 @@ MCInit ==
 
 MCNext ==
   /\ c.pc # "done"
-  /\ c' = IF Family = "plan" THEN PStep(c, SegSize) ELSE CStep(c, inp.buf)
+  /\ c' = CASE Family = "plan" -> PStep(c, SegSize)
+            [] Family = "move" -> MStep(c, inp.buf)
+            [] OTHER -> CStep(c, inp.buf)
   /\ fresh' = FALSE
   /\ UNCHANGED inp
 
 \* ---- what TLC checks --------------------------------------------------------
-SegLemma == Family # "plan" => ForwardSafe(c, Ids(inp.n))
-SegFinal == (Family # "plan" /\ c.pc = "done") =>
+IsSeg == Family \in {"seq", "set"}
+SegLemma == IsSeg => ForwardSafe(c, Ids(inp.n))
+SegFinal == (IsSeg /\ c.pc = "done") =>
               CompactOK(Ids(inp.n), inp.sp, [ok |-> c.ok, saved |-> c.saved, file |-> c.file])
 \* the result does not depend on the buffer size: it equals the one-chunk-per-span run
-SegBufIndep == (Family # "plan" /\ c.pc = "done") =>
+SegBufIndep == (IsSeg /\ c.pc = "done") =>
               LET r == CompactImpl(Ids(inp.n), inp.sp, inp.n + 1, Tie) IN r.file = c.file /\ r.saved = c.saved /\ r.ok = c.ok
 PlanSafe == Family = "plan" => PlanOK(c.plan, inp.segs, SegSize)
+\* move_data: the source is never written, at the end the destination is the overlay
+MoveFinal == Family = "move" =>
+  /\ c.src = Ids(inp.n)
+  /\ c.pc = "done" => MoveOK(Ids(inp.n), DstIds(inp.n, inp.m), inp.so, inp.dof, inp.len, [ok |-> c.ok, src |-> c.src, dst |-> c.dst])
 \* beyond the statement (F18c): no segment is both emptied and filled
 PlanNoChain == Family = "plan" => ~Chained(c.plan)
 
@@ -97,6 +117,10 @@ Emit ==
     IF Family = "plan"
     THEN PrintT(<<"PROGRAM", ToJson([kind |-> "plan",
                    ops |-> <<[op |-> "plan", size |-> SegSize * PlanUnit, segs |-> Scale(inp.segs), thr |-> inp.thr]>>])>>)
+    ELSE IF Family = "move"
+    THEN \A g \in GeomsOf(inp.buf) :
+           PrintT(<<"PROGRAM", ToJson([kind |-> "move", n |-> inp.n, m |-> inp.m, unit |-> g[1],
+                   ops |-> <<[op |-> "move", budget |-> g[2], src |-> inp.so, dst |-> inp.dof, len |-> inp.len]>>])>>)
     ELSE (Geo = 0 /\ inp.buf # EmitBuf) \/
          \A g \in GeomsOf(inp.buf) :
            PrintT(<<"PROGRAM", ToJson([kind |-> "seg", n |-> inp.n, unit |-> g[1],
